@@ -666,42 +666,87 @@ def container_cases(ctx, count):
 # ------------------------------------------------------------------------------------------------
 LEAN_MODULES = ['SkNet.Properties.C01']
 EFFECTS_MAIN = """import SkNet.Generated.Effects
-open SkNet.Own SkNet.Generated.Effects
+import SkNet.Generated.EffectsSelfTest
+open SkNet.Own
 def main : IO Unit := do
-  for f in fns do
-    IO.println s!"{f.name} {f.ok}"
+  for f in SkNet.Generated.Effects.fns do
+    IO.println s!"fn {f.name} {f.ok}"
+  for f in SkNet.Generated.EffectsSelfTest.fns do
+    IO.println s!"test {f.name} {f.ok}"
 """
-EFFECTS_CHECK = """/- generated: kernel check of the ownership obligations of this run -/
+EFFECTS_CHECK = """/- generated: kernel check of the ownership obligations of this run and of the translator's regression tests -/
 import SkNet.Generated.Effects
+import SkNet.Generated.EffectsSelfTest
 namespace SkNet.Generated.Effects
 open SkNet.Own
-theorem all_ok : fns.all Fn.ok = true := by decide +kernel
+%s
+theorem all_ok : fns.all Fn.ok = true := by
+  simp only [fns, List.all_append, %s, Bool.and_self]
 end SkNet.Generated.Effects
+namespace SkNet.Generated.EffectsSelfTest
+open SkNet.Own
+theorem expected : fns.map Fn.ok = %s := by
+  simp only [fns, List.map_append, %s, List.append_eq, List.cons_append, List.nil_append]
+end SkNet.Generated.EffectsSelfTest
 """
 
 
 def generate(ctx):
-    """translate the overlay copy of the working tree into ownership programs"""
-    import os
+    """translate the overlay copy of the working tree into ownership programs; run the translator's own tests"""
     import sys
     from vlib import core
     sys.path.insert(0, os.path.join(core.VERIF, 'tools', 'translate'))
     import effects
+    failures = [k for k, v in effects.self_test().items() if not v]
+    if failures:
+        raise ToolFailure('a row of the translator\'s copy / view / in-place tables does not hold for this numpy / scipy: %s' % failures)
     table, fns = effects.analyse(ctx.overlay_root)
+    if table.unparsed:
+        raise ToolFailure('the translator could not read: %s' % table.unparsed)
+    tests = effects.negative_test_fns()
+    missing = [n for n, e, fn in tests if fn is None]
+    if missing:
+        raise ToolFailure('translator regression tests that did not lower: %s' % missing)
     gen = os.path.join(core.LEAN_DIR, 'SkNet', 'Generated')
     effects.emit(fns, os.path.join(gen, 'Effects.lean'))
+    effects.emit([fn for n, e, fn in tests], os.path.join(gen, 'EffectsSelfTest.lean'), namespace='SkNet.Generated.EffectsSelfTest',
+                 what='the regression tests of tools/translate/effects.py (NEGATIVE_TESTS)')
+    unknown = {}
+    for f in fns:
+        for line, text in f.unknown_calls:
+            unknown.setdefault(text, set()).add(f.qual)
     ctx.extra['effects_functions'] = len(fns)
+    ctx.extra['effects_functions_from_pyx'] = sum(1 for f in fns if f.module in {g.module for g in fns} and _is_pyx(ctx.overlay_root, f.module))
     ctx.extra['effects_public'] = sum(1 for f in fns if f.public)
+    ctx.extra['effects_public_list'] = sorted(f.qual for f in fns if f.public)
     ctx.extra['effects_exempted'] = [f.qual for f in fns if getattr(f, 'exempt', False)]
-    ctx.extra['effects_table_selftest_failures'] = [k for k, v in effects.self_test().items() if not v]
-    ctx._effects = (effects, fns)
+    ctx.extra['effects_unknown_calls'] = {k: sorted(v) for k, v in sorted(unknown.items())}
+    ctx.extra['effects_calls_resolved_by_method_name_only'] = table.unresolved
+    ctx.extra['effects_table_selftest'] = {'assertions': len(effects.self_test()), 'failures': failures}
+    ctx.extra['effects_regression_tests'] = {'total': len(tests), 'must_be_rejected': sum(1 for n, e, fn in tests if e is False),
+                                             'must_be_accepted': sum(1 for n, e, fn in tests if e is True)}
+    ctx._effects = (effects, fns, tests)
+
+
+def _effects_check(n_fns, expected, chunk=40):
+    """one kernel-decided lemma per chunk of the generated table (a single `decide` on 400+ programs is too deep)"""
+    k1 = max(1, (n_fns + chunk - 1) // chunk)
+    lem1 = '\n'.join('theorem ok%d : fns%d.all Fn.ok = true := by decide +kernel' % (i, i) for i in range(k1))
+    k2 = max(1, (len(expected) + chunk - 1) // chunk)
+    exp = lambda xs: '[' + ', '.join('true' if e else 'false' for e in xs) + ']'
+    lem2 = '\n'.join('theorem exp%d : fns%d.map Fn.ok = %s := by decide +kernel' % (i, i, exp(expected[i * chunk:(i + 1) * chunk])) for i in range(k2))
+    text = EFFECTS_CHECK % (lem1, ', '.join('ok%d' % i for i in range(k1)), exp(expected), ', '.join('exp%d' % i for i in range(k2)))
+    return text.replace('theorem expected', lem2 + '\ntheorem expected')
+
+
+def _is_pyx(root, module):
+    return os.path.exists(os.path.join(root, module.replace('.', '/') + '.pyx'))
 
 
 def ownership_obligations(ctx):
-    import os
     from vlib import core
-    effects, fns = ctx._effects
-    ok, out = core.lake_build(['SkNet.Generated.Effects'])
+    effects, fns, tests = ctx._effects
+    ok, out = core.lake_build(['SkNet.Generated.Effects', 'SkNet.Generated.EffectsSelfTest'])
     if not ok:
         raise ToolFailure('generated Effects.lean does not build:\n' + out[-3000:])
     d = os.path.join(core.CACHE, 'drivers')
@@ -711,26 +756,33 @@ def ownership_obligations(ctx):
     rc, so, se = core.lean_file(mainf, run=True)
     if rc != 0:
         raise ToolFailure('EffectsMain failed: ' + se[-2000:])
-    res = {}
+    res, tres = {}, {}
     for ln in so.strip().split('\n'):
         if ln:
-            name, val = ln.rsplit(' ', 1)
-            res[name] = (val == 'true')
+            kind, rest = ln.split(' ', 1)
+            name, val = rest.rsplit(' ', 1)
+            (res if kind == 'fn' else tres)[name] = (val == 'true')
+    # the translator's regression tests, decided by the same Lean check: a pattern that overwrites caller data must be rejected
+    wrong = [n for n, expect, fn in tests if tres.get(n) != expect]
+    if wrong:
+        raise ToolFailure('translator regression tests with the wrong Lean verdict (expected / got): %s' %
+                          [(n, e, tres.get(n)) for n, e, fn in tests if n in wrong])
     bad = sorted(k for k, v in res.items() if not v)
-    ctx.extra['generated_obligations'] = len(res)
-    ctx.extra['generated_discharged'] = len(res) - len(bad)
+    ctx.extra['generated_obligations'] = len(res) + len(tres)
+    ctx.extra['generated_discharged'] = len(res) - len(bad) + len(tres)
     byq = {f.qual: f for f in fns}
     for name in bad:
         fn = byq.get(name)
         params = [fn.params[p] for p in sorted(fn.writes) if p < len(fn.params)] if fn else []
         ctx.broken('Generated.Effects: Fn.ok "%s"' % name,
-                   'the ownership program of %s may write its argument(s) %s' % (name, params),
+                   'the ownership program of %s may write its argument(s) %s: %s' % (name, params, effects.why(fn) if fn else ''),
                    sig={'obligation': 'ownership', 'function': name})
     if not bad:
-        # kernel confirmation of the whole table
+        # kernel confirmation of the whole table and of the regression tests
+        text = _effects_check(len(fns), [e for n, e, fn in tests])
         chk = os.path.join(core.LEAN_DIR, 'SkNet', 'Generated', 'EffectsCheck.lean')
-        if not os.path.exists(chk) or open(chk).read() != EFFECTS_CHECK:
-            open(chk, 'w').write(EFFECTS_CHECK)
+        if not os.path.exists(chk) or open(chk).read() != text:
+            open(chk, 'w').write(text)
         ok, out = core.lake_build(['SkNet.Generated.EffectsCheck'])
         if not ok:
             ctx.extra['generated_discharged'] = 0
